@@ -37,7 +37,11 @@ WithId(v, id) == With(v, "id", Str(id))
 VariantIds == UNION {{[to |-> WithId(With(BaseV(g, 1), "name", Nlv(<<LR(NilTag, "old")>>)), Base \o "same/1"),
                        from |-> WithId(With(BaseV(g, 1), "summary", Nlv(<<LR(NilTag, "new")>>)), v)]
                       : v \in {Base \o "same/1/", "http://example.com/same/1", "https://EXAMPLE.COM/same/1"}} : g \in {"Object", "Actor", "Collection"}}
-AllCopy == OneTerm \cup TwoTerms \cup GuardCases \cup VariantIds
+\* `from` addresses the same recipients in several lists (and twice in one): its lists must arrive unchanged and stay unchanged
+Shared == UNION {{[to |-> With(BaseV(g, 1), "to", ListOf(<<Iri(Base \o "old/1")>>)),
+                   from |-> With(With(With(With(BaseV(g, 1), "to", ListOf(<<I1, I2, I1>>)), "cc", ListOf(<<I1, I3, Person1>>)),
+                                      "bto", ListOf(<<I2>>)), "bcc", ListOf(<<I3, Iri(Base \o "hidden/1"), I1>>))]} : g \in {"Object", "Actor", "OrderedCollection", "Place"}}
+AllCopy == Shared \cup OneTerm \cup TwoTerms \cup GuardCases \cup VariantIds
 GenInit == mto = <<>> /\ mfrom = <<>> /\ phase = "gen"
 GenNext == FALSE /\ UNCHANGED vars
 ASSUME ndJsonSerialize("c18_cases.ndjson", SetToSeq(AllCopy))
